@@ -61,3 +61,15 @@ Theorem c19_tie_extract_ok_rate_check_arguments : extract_ok_rate_check_argument
 Proof. exact tie_extract_ok_rate_check_arguments. Qed.
 Theorem c19_tie_extract_ok_send_kexinit_defaults : extract_ok_send_kexinit_defaults = true.
 Proof. exact tie_extract_ok_send_kexinit_defaults. Qed.
+(* the loop conditions of the connection-rate check as they read in the current source (T1c translation) are the model's *)
+Theorem c19_tie_rate_stop_opened : forall opened, (rate_max_connections <=? opened)%Z = src_rate_stop_time_or_opened false false opened rate_max_connections.
+Proof. exact tie_rate_stop_opened. Qed.
+Theorem c19_tie_rate_stop_attempts : forall attempted pending,
+  ((rate_max_connections <=? attempted) && (pending =? 0))%Z = src_rate_stop_attempts false attempted rate_max_connections pending.
+Proof. exact tie_rate_stop_attempts. Qed.
+Theorem c19_tie_rate_open_more : forall pending opened attempted,
+  ((pending <? rate_concurrent_sockets) && (pending + opened <? rate_max_connections) && (attempted <? rate_max_connections))%Z
+  = src_rate_open_more false pending rate_concurrent_sockets opened attempted rate_max_connections.
+Proof. exact tie_rate_open_more. Qed.
+Theorem c19_rate_time_up_stops : forall opened maxc, src_rate_stop_time_or_opened false true opened maxc = true.
+Proof. exact rate_time_up_stops. Qed.
